@@ -215,5 +215,22 @@ CHECKS = {
           "complex_as=list are not modelled.",
   'technique': 'Coq proof (17 theorems) over a Gallina model of inheritance + polymorphic codecs + fail-closed ast translator (c16shape incl. _get_xsi_target) + correspondences (class statements, registry, XML trees with marker resolution, decoders on mutated documents) + loopback oracle over six protocols',
  },
+ 'C06': {
+  'text': "The XML Schema Spyne generates compiles, and every request or response document Spyne emits for values that satisfy "
+          "the declared constraints is valid against it (theorem over a model of the emitter and an XSD 1.0 validity relation "
+          "written from the recommendation, for all well-formed universes and conformant values; partial in two refuted "
+          "regions). For documents that use only declared fields in declared order, schema validation and soft validation "
+          "reach the same verdict for every constraint both implement (all declared-order documents; leaf half proved for "
+          "integers, strings and booleans).",
+  'design_ref': 'DESIGN.md section 6 (C06)',
+  'note': TB + "The emitter's decision tokens (which condition omits minOccurs/maxOccurs/default/nillable, facet-tag tables, "
+          "is_default lists, choice placement, use derivation, the Decimal and Boolean writers, xsi:nil values) are regenerated "
+          "into Gen/XsdEmit.v and the theorems are stated over them. Closure of the published schema is a sound decidable "
+          "check evaluated per generated universe, not a theorem over all universes. Double, Float, Date, Time, DateTime, "
+          "Duration, ByteArray, Uuid are opaque ordered kinds under library hypotheses tabulated per run; 'the schema "
+          "compiles' is observed with lxml. Three finding regions: Decimal exponent notation on the wire, a nil element of a "
+          "class with a required attribute, a choice group declared in two runs.",
+  'technique': 'Coq proof over a Gallina model of the schema emitter, the XML writer and soft validation against an XSD validity relation + fail-closed ast translator (xsdemit) + correspondences (model schema vs real XSD, XSD model vs libxml2, emit, soft) + lxml oracle',
+ },
 }
 NOT_APPLICABLE = {}
